@@ -179,6 +179,8 @@ def run(ttb, np, rd):
             for k in ("maxinneriters", "kappa", "kappatol", "epsActive", "mu0", "precompinds", "inexact", "lbfgsMem", "epsDivZero"):
                 if k in o:
                     kw[k] = o[k]
+            if rd.get("printinner") is not None:     # wave 4: the second verbosity setting of cp_apr (inner status lines, line-search warnings)
+                kw["printinneritn"] = int(rd["printinner"])
             M, M0, out = ttb.cp_apr(X, int(rd["rank"]), algorithm=alg[len("cp_apr_"):], stoptol=o.get("stoptol", 1e-4),
                                     maxiters=o["maxiters"], init=ini, printitn=pr, **kw)
             kkt = [ex(x) for x in np.asarray(out["kktViolations"]).ravel()]
